@@ -536,7 +536,7 @@ func (m *Memberlist) UpdateNode(timeout time.Duration) error {
 		Meta:        meta,
 		Vsn:         m.config.BuildVsnArray(),
 	}
-	notifyCh := make(chan struct{})
+	notifyCh := make(chan struct{}, 1)
 	m.aliveNode(&a, notifyCh, true)
 
 	// Wait for the broadcast or a timeout
